@@ -710,6 +710,9 @@ def run_one(make_coro, prefix=(), horizon=20000, fp_hook=None, collect_states=Fa
     return x
 
 
+DEFAULT_RUN_HORIZON = [200_000]
+
+
 def _dispose(loop):
     import gc
 
@@ -735,7 +738,7 @@ def _dispose(loop):
 def run_default(coro_fn, *a, **kw):
     """Run one coroutine under the default schedule and return its result
     (or raise its exception). Used as a fast deterministic runtime."""
-    x = run_one(lambda loop, s: coro_fn(*a, **kw))
+    x = run_one(lambda loop, s: coro_fn(*a, **kw), horizon=DEFAULT_RUN_HORIZON[0])
     if x.err is not None:
         raise x.err
     if x.exc is not None:
